@@ -128,6 +128,7 @@ def run(ctx, rep):
             lines.append(f"localopt ; {1 if needs_before else 0} {L} {len(consts_before)} ; {ntr} ; {calls['jac']} ; {final_len if needs_before and L > 0 else 0}")
             meta.append((case, (0, len(ag.constants), calls["n"])))
     sequences(ctx, rep)
+    optimizer_reuse(ctx, rep)
     if ctx.driver_ok:
         outs = run_driver(lines)
         rep.corr_cases = len(lines)
@@ -203,6 +204,45 @@ def sequences(ctx, rep):
                 st[i] = rng.choice([[G.VARIABLE, 0, 0], [G.CONSTANT, -1, -1], [G.INTEGER, 3, 3]])
             ag.command_array = np.array(st, dtype=int).reshape(-1, 3)
             history = history + [st]
+
+
+def optimizer_reuse(ctx, rep):
+    """ONE optimizer / wrapper serves many individuals (what an evaluation phase does), among them equations with more constants
+    than data points (root methods fall back to BFGS for those): every call must still satisfy the property"""
+    rng = ctx.rng
+    eqs = ["1.0*X_0 + 1.0", "1.0*X_0*X_0 + 1.0*X_0 + 1.0", "1.0*sin(1.0*X_0) + 1.0", "1.0 + X_0", "1.0*X_0",
+           "1.0*X_0*X_0*X_0 + 1.0*X_0*X_0 + 1.0*X_0 + 1.0"]
+    for t in range(ctx.n(40, 400)):
+        M = rng.choice([2, 2, 3, 6])
+        x = np.array([[rng.uniform(0.3, 2.5)] for _ in range(M)])
+        y = 1.7 * x + 0.4
+        method = rng.choice(["lm", "lm", "BFGS", "Nelder-Mead"])
+        metric = rng.choice(["mse", "mae", "rmse"])
+        base = ExplicitRegression(ExplicitTrainingData(x, y), metric=metric)
+        lo = LocalOptFitnessFunction(base, ScipyOptimizer(base, method=method))
+        order = [rng.choice(eqs) for _ in range(rng.randrange(3, 7))]
+        np.random.seed(rng.randrange(2 ** 31))
+        for k, e in enumerate(order):
+            case = {"equations": order, "index": k, "data_points": M, "method": method, "metric": metric}
+            rep.case(("reuse", tuple(order), k, M, method, metric), True)
+            rep.count("optimizer_reuse", "constants > data points" if e.count("1.0") > M else "constants <= data points")
+            ag = AGraph(equation=e)
+            try:
+                with warnings.catch_warnings():
+                    warnings.simplefilter("ignore")
+                    with np.errstate(all="ignore"):
+                        v = lo(ag)
+                        want = ExplicitRegression(ExplicitTrainingData(x, y), metric=metric)(ag.copy())
+            except Exception as exc:
+                rep.violate(f"the {k + 1}-th individual served by one optimizer ({e}; earlier: {order[:k]}) raised {type(exc).__name__}: {exc}",
+                            "C06:raised", case)
+                break
+            if not same(float(v), float(want)):
+                rep.violate(f"the {k + 1}-th individual served by one optimizer: returned {v!r}, base fitness of its constants {want!r}", "C06:reported-not-base", case)
+                break
+            if ag.needs_local_optimization():
+                rep.violate(f"the {k + 1}-th individual served by one optimizer still requests optimization", "C06:still-needs-opt", case)
+                break
 
 
 def refit(ctx, rep):
